@@ -35,7 +35,45 @@ template <typename VT> static void vchk(Special& s, const VT& x, int idx, const 
   if (idx == -1) s.expect(x.template get<TA>() == nullptr, "model:Variant.get", fmt("%s: get<T>() non-null on an empty Variant", who));
 }
 
+// a Variant with 130 alternatives: indices beyond 127 (a narrow or signed index member goes wrong there)
+template <int I> struct BA : Tr<100 + I> { using Tr<100 + I>::Tr; BA() = default; };
+template <int I> static int elem_idx(const BA<I>&) { return I; }
+template <typename Seq> struct MkBig; template <size_t... I> struct MkBig<std::index_sequence<I...>> { using type = nop::Variant<BA<(int)I>...>; };
+using BigV = MkBig<std::make_index_sequence<130>>::type;
+template <int I> static void bchk(Special& s, const BigV& x, const char* who) {
+  s.expect(x.index() == I, "model:Variant.index", fmt("%s: index() = %d, expected %d (Variant with 130 alternatives)", who, x.index(), I));
+  int calls = 0, vidx = -2; x.Visit([&](const auto& e) { calls++; vidx = elem_idx(e); });
+  s.expect(calls == 1 && vidx == I, "model:Variant.Visit-alternative", fmt("%s: Visit passed alternative %d (%d calls), expected %d", who, vidx, calls, I));
+  s.expect(x.template get<BA<I>>() != nullptr && x.template is<BA<I>>() && !x.empty(), "model:Variant.get", fmt("%s: get<T>()/is<T>()/empty() disagree with the active alternative %d", who, I));
+  s.expect(x.template get<BA<(I + 1) % 130>>() == nullptr, "model:Variant.get", fmt("%s: get<T>() non-null for an inactive alternative", who));
+}
+template <int I> static void big_case(Special& s) {
+  s.begin(fmt("wide-variant-alternative-%d", I));
+  { BigV v; v.Become(I); bchk<I>(s, v, "after Become"); s.expect(g_live.size() == 1, "registry:Variant.live-count", fmt("%zu elements alive after Become(%d)", g_live.size(), I));
+    BigV c(v); bchk<I>(s, c, "copy"); BigV m(std::move(c)); bchk<I>(s, m, "move-constructed");
+    BigV a; a = v; bchk<I>(s, a, "copy-assigned"); a = BA<I>(9); bchk<I>(s, a, "value-assigned"); if (auto* e = a.template get<BA<I>>()) s.expect(e->v == 9, "model:Variant.value", "wrong element value");
+    a = nop::EmptyVariant{}; s.expect(a.index() == -1 && a.empty(), "model:Variant.index", "not empty after = EmptyVariant");
+    BigV k(BA<I>(3)); bchk<I>(s, k, "value-constructed"); k.Become(129 - I); s.expect(k.index() == 129 - I, "model:Variant.index", fmt("index() = %d after Become(%d)", k.index(), 129 - I)); k.Become(130); s.expect(k.empty(), "model:Variant.index", "Become(out of range) did not empty the Variant"); }
+  s.end();
+}
+// an alternative that is a union type with a user-provided destructor (std::is_class is false for unions)
+static long g_ucell_ctor = 0, g_ucell_dtor = 0;
+union UCell { int i; float f; UCell() : i(0) { g_ucell_ctor++; } UCell(const UCell& o) : i(o.i) { g_ucell_ctor++; } UCell& operator=(const UCell& o) { i = o.i; return *this; } ~UCell() { g_ucell_dtor++; } };
+static int elem_idx(const UCell&) { return 1; }
+
 static void variant_special() {
+  { Special s{"c12"};
+    big_case<0>(s); big_case<1>(s); big_case<63>(s); big_case<64>(s); big_case<126>(s); big_case<127>(s); big_case<128>(s); big_case<129>(s);
+    using UV = nop::Variant<int, UCell>;
+    s.begin("union-alternative");
+    g_ucell_ctor = g_ucell_dtor = 0;
+    { UV v; v.Become(1); s.expect(v.index() == 1, "model:Variant.index", "Become(1)"); v = nop::EmptyVariant{}; s.expect(g_ucell_ctor == g_ucell_dtor, "registry:Variant.union-alternative", fmt("after = EmptyVariant: %ld union elements constructed, %ld destroyed", g_ucell_ctor, g_ucell_dtor));
+      v.Become(1); v = 5; s.expect(g_ucell_ctor == g_ucell_dtor, "registry:Variant.union-alternative", fmt("after assigning another alternative: %ld constructed, %ld destroyed", g_ucell_ctor, g_ucell_dtor));
+      v.Become(1); v.Become(0); s.expect(g_ucell_ctor == g_ucell_dtor, "registry:Variant.union-alternative", fmt("after Become(other): %ld constructed, %ld destroyed", g_ucell_ctor, g_ucell_dtor));
+      v.Become(1); UV c(v); UV m(std::move(c)); }
+    s.expect(g_ucell_ctor == g_ucell_dtor, "registry:Variant.union-alternative", fmt("after destroying the Variants: %ld union elements constructed, %ld destroyed", g_ucell_ctor, g_ucell_dtor));
+    s.end();
+  }
   using S1 = nop::Variant<TA>; using VI = nop::Variant<int, TA>; using VW = nop::Variant<std::string, TA, int, TB>;   // VW: a wider list containing V's types in another order
   static const uint8_t pats[] = {0x00, 0x01, 0x7f, 0xaa, 0xff};
   Special s{"c12"};
@@ -84,8 +122,47 @@ template <typename RT> static size_t rinv(Special& s, const RT& x, const char* w
   s.expect(x.get().alive(), "model:Result.flag-without-value", fmt("%s reports a value after a throwing constructor, but no value was constructed", who)); return 1;
 }
 
+// decoding into Optional / Entry / Result objects whose elements are tracked: the decoders construct, move and destroy elements themselves
+template <typename T> static Bytes enc_of(const T& v) { Bytes b(256); nop::Serializer<nop::BufferWriter> ser{b.data(), b.size()}; auto st = ser.Write(v); if (!st) return {}; b.resize(ser.writer().size()); return b; }
+template <typename T> static nop::Status<void> dec_into(const Bytes& b, T* dst) { ExactBuf eb(b.data(), b.size()); nop::Deserializer<nop::PedanticBufferReader> d{eb.p, b.size()}; return d.Read(dst); }
+struct DecTab { nop::Entry<TA, 1> a; nop::Entry<O, 2> b; NOP_TABLE_HASH(77, DecTab, a, b); };
+static void optional_decode_special(Special& s) {
+  using OO = nop::Optional<O>;
+  // bytes: engaged(engaged(5)), NIL, Result value / error / empty, a table with both entries
+  Bytes oo5, o7, nil = {0xbe}, r3, rerr, tab;
+  { OO x{nop::InPlace{}, O(TA(5))}; oo5 = enc_of(x); } { O x(TA(7)); o7 = enc_of(x); } { R x(TA(3)); r3 = enc_of(x); } { R x(E::Y); rerr = enc_of(x); }
+  { DecTab t; t.a = TA(11); t.b = O(TA(12)); tab = enc_of(t); }
+  g_live.clear(); g_fault.clear();
+  for (int prior = 0; prior < 4; prior++) {
+    static const char* const pn[] = {"fresh", "cleared-after-holding-a-value", "holding-another-value", "outer-engaged-inner-empty"};
+    { s.begin(fmt("decode:Optional<Optional<T>>/%s", pn[prior])); { OO d; if (prior == 1) { d = OO{nop::InPlace{}, O(TA(1))}; d.clear(); } else if (prior == 2) d = OO{nop::InPlace{}, O(TA(2))}; else if (prior == 3) d = OO{nop::InPlace{}, O()};
+        auto st = dec_into(oo5, &d); s.expect((bool)st, "model:Optional.decode", "reading a valid encoding failed");
+        s.expect(!d.empty() && !d.get().empty() && d.get().get().alive() && d.get().get().v == 5, "model:Optional.decode-state", fmt("after decoding engaged(engaged(5)): outer %s, %s", d.empty() ? "empty" : "engaged", (!d.empty() && !d.get().empty()) ? "inner engaged" : "inner empty"));
+        s.expect(g_live.size() == 1, "registry:Optional/Result.live-count", fmt("%zu tracked values alive after the decode, expected 1", g_live.size()));
+        st = dec_into(nil, &d); s.expect((bool)st && d.empty() && g_live.empty(), "model:Optional.decode-state", "NIL decoded over a value must leave an empty Optional and no value alive");
+        Bytes cut(oo5.begin(), oo5.end() - 1); if (prior == 2) d = OO{nop::InPlace{}, O(TA(2))}; st = dec_into(cut, &d); s.expect(!st, "model:Optional.decode", "truncated encoding accepted");
+        size_t live = (!d.empty() && !d.get().empty()) ? 1 : 0; if (live) s.expect(d.get().get().alive(), "model:Optional.flag-without-value", "after a failed decode the Optional reports a value that is not alive");
+        s.expect(g_live.size() == live, "registry:Optional/Result.live-count", fmt("%zu tracked values alive after a failed decode, the object holds %zu", g_live.size(), live)); }
+      s.end(); }
+    { s.begin(fmt("decode:Optional<T>/%s", pn[prior])); { O d; if (prior == 1) { d = TA(1); d.clear(); } else if (prior >= 2) d = TA(2);
+        auto st = dec_into(o7, &d); s.expect((bool)st && !d.empty() && d.get().alive() && d.get().v == 7 && g_live.size() == 1, "model:Optional.decode-state", fmt("after decoding engaged(7): %s, %zu values alive", d.empty() ? "empty" : "engaged", g_live.size()));
+        st = dec_into(nil, &d); s.expect((bool)st && d.empty() && g_live.empty(), "model:Optional.decode-state", "NIL decoded over a value must leave an empty Optional and no value alive"); }
+      s.end(); }
+    { s.begin(fmt("decode:Result<E,T>/%s", pn[prior])); { R d; if (prior == 1) { d = TA(1); d.clear(); } else if (prior == 2) d = TA(2); else if (prior == 3) d = E::X;
+        auto st = dec_into(r3, &d); s.expect((bool)st && d.has_value() && d.get().alive() && d.get().v == 3 && g_live.size() == 1, "model:Result.decode-state", fmt("after decoding a value: has_value %d, %zu values alive", (int)d.has_value(), g_live.size()));
+        st = dec_into(rerr, &d); s.expect((bool)st && d.has_error() && d.error() == E::Y && g_live.empty(), "model:Result.decode-state", fmt("an error decoded over a value: has_error %d, %zu values alive", (int)d.has_error(), g_live.size()));
+        st = dec_into(r3, &d); s.expect((bool)st && d.has_value() && g_live.size() == 1, "model:Result.decode-state", "a value decoded over an error"); }
+      s.end(); }
+    { s.begin(fmt("decode:table-entries/%s", pn[prior])); { DecTab d; if (prior == 1) { d.a = TA(1); d.b = O(TA(2)); d.a.clear(); d.b.clear(); } else if (prior == 2) { d.a = TA(1); d.b = O(TA(2)); } else if (prior == 3) d.b = O();
+        auto st = dec_into(tab, &d); s.expect((bool)st && !d.a.empty() && d.a.get().v == 11 && !d.b.empty() && !d.b.get().empty() && d.b.get().get().v == 12, "model:Entry.decode-state", "table entries did not decode to their values");
+        s.expect(g_live.size() == 2, "registry:Optional/Result.live-count", fmt("%zu tracked values alive after decoding a table with two tracked entries", g_live.size())); }
+      s.end(); }
+  }
+}
+
 static void optional_special() {
   Special s{"c13"};
+  optional_decode_special(s);
   static const uint8_t pats[] = {0x00, 0x01, 0x7f, 0xaa, 0xff};
   for (uint8_t pat : pats) {
     auto nm = [&](const char* n) { return fmt("%s/pattern-%02x", n, pat); };
